@@ -155,6 +155,9 @@ type RunOpts struct {
 	GoVersion   string
 	State       *ruleguard.RunnerState
 	OnReport    func(n int) // called after the n-th report (1-based); may panic
+	// Ctx, when set, is the RunContext object to use (its fields are overwritten for this run): a caller that keeps
+	// one RunContext for several Engine.Run calls and changes its fields in between
+	Ctx *ruleguard.RunContext
 }
 
 func offset(fset *token.FileSet, p token.Pos) int {
@@ -180,7 +183,11 @@ func Run(e *ruleguard.Engine, t *Target, o RunOpts) (reports []Report, panicKind
 		}
 	}()
 	n := 0
-	ctx := &ruleguard.RunContext{
+	ctx := o.Ctx
+	if ctx == nil {
+		ctx = &ruleguard.RunContext{}
+	}
+	*ctx = ruleguard.RunContext{
 		Pkg:         t.Pkg,
 		Types:       t.Info,
 		Sizes:       types.SizesFor("gc", runtime.GOARCH),
